@@ -115,22 +115,8 @@ func timingProblems(f *smfdec.File, p model.Piece) []string {
 	var probs []string
 	T := f.Division
 	ev := mergedEvents(f)
-	// note-on groups by tick
-	type group struct {
-		tick uint64
-		ons  []smfdec.Event
-	}
-	var groups []group
-	for _, e := range ev {
-		if e.Kind != smfdec.NoteOn {
-			continue
-		}
-		if len(groups) == 0 || groups[len(groups)-1].tick != e.Tick {
-			groups = append(groups, group{tick: e.Tick})
-		}
-		g := &groups[len(groups)-1]
-		g.ons = append(g.ons, e)
-	}
+	groups := onsetGroups(f)
+	_ = ev
 	// release ticks: pair each note-on with the next note-off of the same key on the same track
 	offTick := map[[3]int]uint64{} // (track, index) of the on -> tick of its off
 	for ti, tr := range f.Tracks {
@@ -189,6 +175,12 @@ func timingProblems(f *smfdec.File, p model.Piece) []string {
 		}
 		g := groups[gi]
 		gi++
+		for _, on := range g.ons {
+			if on.Tick != g.tick {
+				probs = append(probs, fmt.Sprintf("instance %d: note-ons of one chord at ticks %d and %d", i, g.tick, on.Tick))
+				return probs
+			}
+		}
 		if !model.InSet(cur, g.tick) {
 			probs = append(probs, fmt.Sprintf("instance %d: note-ons at tick %d, the instance starts at %v (T=%d)", i, g.tick, cur, T))
 			return probs
@@ -218,6 +210,48 @@ func timingProblems(f *smfdec.File, p model.Piece) []string {
 		probs = append(probs, fmt.Sprintf("%d onset groups in the file but only %d chords written (first extra at tick %d)", len(groups), gi, groups[gi].tick))
 	}
 	return probs
+}
+
+// onsetGroup is the set of note-ons of one chord.
+type onsetGroup struct {
+	tick uint64
+	ons  []smfdec.Event
+}
+
+// onsetGroups attributes note-ons to chords. In a single-track file a chord is a run of consecutive
+// note-ons ended by the first note-off (this also separates chords of zero ticks that share a tick
+// with their neighbours); with several tracks the notes of one chord are spread over the tracks and
+// are grouped by tick (the generators then avoid instances shorter than 2 ticks).
+func onsetGroups(f *smfdec.File) []onsetGroup {
+	var groups []onsetGroup
+	if len(f.Tracks) == 1 {
+		open := false
+		for _, e := range f.Tracks[0].Events {
+			switch e.Kind {
+			case smfdec.NoteOn:
+				if !open {
+					groups = append(groups, onsetGroup{tick: e.Tick})
+					open = true
+				}
+				g := &groups[len(groups)-1]
+				g.ons = append(g.ons, e)
+			case smfdec.NoteOff:
+				open = false
+			}
+		}
+		return groups
+	}
+	for _, e := range mergedEvents(f) {
+		if e.Kind != smfdec.NoteOn {
+			continue
+		}
+		if len(groups) == 0 || groups[len(groups)-1].tick != e.Tick {
+			groups = append(groups, onsetGroup{tick: e.Tick})
+		}
+		g := &groups[len(groups)-1]
+		g.ons = append(g.ons, e)
+	}
+	return groups
 }
 
 // ctlEvent is an expected control event.
